@@ -123,4 +123,69 @@ theorem calls_traceFrom (m a : Nat) : calls (traceFrom m a) = m := by
     rw [traceFrom]
     by_cases h : a > 0 <;> simp [h, this]
 
+/-! ## the loop with the request-body branch (`loopB`) -/
+
+theorem loopB_none (script : Nat → Outcome) (r a : Nat) (last : Option (Nat × Outcome)) :
+    loopB script none r a last = loop script r a last := by
+  induction r generalizing a last with
+  | zero => simp [loopB, loop]
+  | succ r ih => simp [loopB, loop, ih]
+
+/-- the failing `GetBody` call lies outside the attempts still to come -/
+theorem loopB_unreached (script : Nat → Outcome) (k r a : Nat) (last : Option (Nat × Outcome))
+    (h : k < a ∨ a + r ≤ k ∨ k = 0) : loopB script (some k) r a last = loop script r a last := by
+  induction r generalizing a last with
+  | zero => simp [loopB, loop]
+  | succ r ih =>
+    have hne : ¬ (a > 0 ∧ some k = some a) := by
+      intro ⟨h1, h2⟩
+      have : k = a := by simpa using h2
+      omega
+    rw [loopB, loop, if_neg hne]
+    simp only [ih (a + 1) _ (by omega : k < a + 1 ∨ a + 1 + r ≤ k ∨ k = 0)]
+
+theorem firstAcceptable_ge {script : Nat → Outcome} {k a i : Nat}
+    (h : firstAcceptable script k a = some i) : a ≤ i := (firstAcceptable_some h).1
+
+/-- the loop when the `GetBody` call before attempt `k` fails and attempt `k` is among those still to come -/
+theorem loopB_closed (script : Nat → Outcome) (k r a : Nat) (last : Option (Nat × Outcome))
+    (hk : 0 < k) (h1 : a ≤ k) (h2 : k < a + r) :
+    loopB script (some k) r a last =
+      match firstAcceptable script (k - a) a with
+      | some j => (traceFrom (j - a + 1) a, ⟨some j, none⟩)
+      | none => (traceFrom (k - a) a ++ [Event.sleep],
+                 if k = a then retOf last else retOf (some (k - 1, script (k - 1)))) := by
+  induction r generalizing a last with
+  | zero => omega
+  | succ r ih =>
+    rw [loopB]
+    by_cases hka : k = a
+    · subst hka
+      have hc : (k > 0 ∧ some k = some k) := ⟨hk, rfl⟩
+      simp [hc, firstAcceptable, traceFrom]
+    · have hne : ¬ (a > 0 ∧ some k = some a) := by
+        intro ⟨_, h⟩
+        exact hka (by simpa using h)
+      rw [if_neg hne]
+      have e : k - a = (k - (a + 1)) + 1 := by omega
+      rw [e, firstAcceptable]
+      by_cases hacc : (script a).acceptable
+      · simp [hacc, traceFrom]
+      · simp only [hacc, Bool.false_eq_true, ↓reduceIte]
+        simp only [ih (a + 1) _ (by omega : a + 1 ≤ k) (by omega : k < a + 1 + r)]
+        cases hfa : firstAcceptable script (k - (a + 1)) (a + 1) with
+        | some j =>
+          have := firstAcceptable_ge hfa
+          have e2 : j - a + 1 = (j - (a + 1) + 1) + 1 := by omega
+          have e3 : traceFrom (j - a + 1) a =
+              (if a > 0 then [Event.sleep] else []) ++ [Event.call a] ++ traceFrom (j - (a + 1) + 1) (a + 1) := by
+            rw [e2, traceFrom]
+          dsimp only
+          rw [e3]
+        | none =>
+          simp only [traceFrom, hka, ↓reduceIte, List.append_assoc]
+          by_cases hk1 : k = a + 1
+          · subst hk1; simp
+          · simp [hk1]
+
 end ShootVerif.Retry
